@@ -160,6 +160,10 @@ def random_script(rng, shape, length):
         if x < 0.30:
             a, sy = addr(k, 0.5)
             out.append({"a": "discover", "k": k, "m": m, "req": a, "reqs": sy, "xid": rng.choice(xids), "prl": prl})
+            if rng.random() < 0.1:
+                out[-1]["gi"] = rng.choice([lo2 + 2, 2 if lo2 > 3 else min(n1 - 2, hi2 + 2), EXT])
+            if rng.random() < 0.1:
+                out[-1]["bf"] = True
         elif x < 0.52:
             a, sy = addr(k, 0.05)
             if rng.random() < 0.8:
@@ -222,13 +226,25 @@ def lifecycle_script(rng, shape, length):
         if rng.random() < 0.12:
             out.append({"a": rng.choice(["capture", "uncapture"]), "m": k})
 
+    if n1 > 256:
+        other += [7, 263, 40, 296]          # pairs equal in the last octet (x.y.0.7 / x.y.1.7)
+    gis = [lo2 + 2, max(2, lo2 - 2) if lo2 > 3 else hi2 + 2 if hi2 + 2 < n1 else 2, EXT]     # relay agent in net2 / in the home-only part / off-LAN
+
+    def relay(rec):
+        # BOOTP header fields the server must not let override the capture state: giaddr (+hops, secs), broadcast flag
+        if rng.random() < 0.12:
+            rec["gi"] = rng.choice(gis)
+        if rng.random() < 0.1:
+            rec["bf"] = True
+        return rec
+
     def dora(k, m=None, prl="none", stale_xid=False):
         m = m or k
         x = rng.choice(["x1", "x2", "x3", "x4"])
         xid[k] = x
         u = rng.random()
         req = (NOA, "lit") if u < 0.5 else (NOA, "ip:" + k) if u < 0.8 else (rng.choice(other), "lit")
-        out.append({"a": "discover", "k": k, "m": m, "req": req[0], "reqs": req[1], "xid": x, "prl": prl})
+        out.append(relay({"a": "discover", "k": k, "m": m, "req": req[0], "reqs": req[1], "xid": x, "prl": prl}))
         toggle(m)
         if rng.random() < 0.15:
             out.append({"a": "age"})                                      # the offer is not taken up in time
@@ -236,8 +252,31 @@ def lifecycle_script(rng, shape, length):
             out.append({"a": "discover", "k": k, "m": m, "req": req[0], "reqs": req[1], "xid": x, "prl": prl})
             toggle(m)
         x2 = rng.choice([y for y in ["x1", "x2", "x3", "x4"] if y != x]) if stale_xid else x
-        out.append({"a": "request", "k": k, "m": m, "sid": "us", "ropt": NOA, "ropts": "offer:" + k, "ci": NOA, "cis": "lit",
-                    "srck": "zero", "xid": x2, "prl": prl})
+        out.append(relay({"a": "request", "k": k, "m": m, "sid": "us", "ropt": NOA, "ropts": "offer:" + k, "ci": NOA, "cis": "lit",
+                          "srck": "zero", "xid": x2, "prl": prl}))
+
+    def expiry_takeover(a, b):
+        # a's lease expires, the session forgets a, b asks for a's address and gets it; a comes back with two DISCOVERs
+        # of different xids and selects
+        out.append({"a": "tick", "far": True})
+        out.append({"a": "purge"})
+        out.append({"a": "discover", "k": b, "m": b, "req": NOA, "reqs": "ip:" + a, "xid": "x1", "prl": "none"})
+        out.append({"a": "request", "k": b, "m": b, "sid": "us", "ropt": NOA, "ropts": "offer:" + b, "ci": NOA, "cis": "lit", "srck": "zero", "xid": "x1", "prl": "none"})
+        if rng.random() < 0.5:
+            out.append({"a": "purge"})
+        out.append({"a": "discover", "k": a, "m": a, "req": NOA, "reqs": "lit", "xid": "x2", "prl": "none"})
+        out.append({"a": "discover", "k": a, "m": a, "req": NOA, "reqs": "lit", "xid": "x3", "prl": "none"})
+        out.append({"a": "request", "k": a, "m": a, "sid": "us", "ropt": NOA, "ropts": "offer:" + a, "ci": NOA, "cis": "lit", "srck": "zero", "xid": "x3", "prl": "none"})
+
+    def cross_subnet(a, b):
+        # a (captured or not) holds an address, the session forgets it, a client of the OTHER capture state asks for exactly that address
+        out.append({"a": "purge"})
+        if rng.random() < 0.5:
+            out.append({"a": "capture", "m": b})
+        else:
+            out.append({"a": "uncapture", "m": b})
+        out.append({"a": "discover", "k": b, "m": b, "req": NOA, "reqs": "ip:" + a, "xid": "x4", "prl": "none"})
+        out.append({"a": "request", "k": b, "m": b, "sid": "us", "ropt": NOA, "ropts": "offer:" + b, "ci": NOA, "cis": "lit", "srck": "zero", "xid": "x4", "prl": "none"})
 
     for k in pool[:rng.randint(2, 3)]:
         if rng.random() < 0.25:
@@ -286,11 +325,27 @@ def lifecycle_script(rng, shape, length):
             out.append({"a": "tick", "far": rng.random() < 0.45})
         elif x < 0.82:
             out.append({"a": rng.choice(["restart", "restart", "restart", "reload", "reload", "reload", "reconf"])})
-        elif x < 0.87:
+        elif x < 0.845:
             j = rng.choice(pool)
             if j != k:
                 dora(k, m=j)                                             # known client id from another MAC
+        elif x < 0.87:
+            j = rng.choice(pool)
+            if j != k:
+                if rng.random() < 0.5:
+                    out.append({"a": rng.choice(["capture", "uncapture"]), "m": k})
+                dora(j, m=k)                                             # known MAC under another client id (option 61 appears / changes)
+        elif x < 0.89:
+            j = rng.choice([c for c in pool if c != k])
+            if j not in active:
+                active.append(j)
+            expiry_takeover(k, j)
         elif x < 0.91:
+            j = rng.choice([c for c in pool if c != k])
+            if j not in active:
+                active.append(j)
+            cross_subnet(k, j)
+        elif x < 0.925:
             out.append({"a": "foreign", "m": rng.choice(pool + ["stranger"]), "ip": rng.randrange(1, n1 - 1), "ips": "ip:" + k})
         elif x < 0.94:
             out.append({"a": "purge"})
@@ -306,7 +361,7 @@ def lifecycle_script(rng, shape, length):
 # driving and validating
 
 ARGS = ("a", "k", "m", "req", "reqs", "xid", "prl", "sid", "ropt", "ropts", "ci", "cis", "srck", "far", "ip", "ips",
-        "cfg", "mode", "id", "name")
+        "cfg", "mode", "id", "name", "gi", "bf")
 
 
 def build_driver(ctx):
@@ -690,7 +745,7 @@ def plan(ctx, check):
     wide = dict(special=(7, 3), foreign=(3,), prls=("none",), maxtog=2, maxtick=1, maxenv=1)
     full = dict(special=(7, 0, 3, 4, 1000, 5, 1), foreign=(3, 1), prls=("none", "rm"), maxtog=2, maxtick=2, maxenv=2, restart=True)
     core = dict(special=(), foreign=(), prls=("none",), maxtog=2, maxtick=1, maxenv=0)
-    xmac = dict(special=(3,), foreign=(), prls=("none",), maxtog=0, maxtick=1, maxenv=0, clients="ClientsAll")   # any client id from any MAC
+    xmac = dict(special=(3,), foreign=(), prls=("none",), maxtog=1, maxtick=1, maxenv=0, clients="ClientsAll")   # any client id from any MAC
     low = dict(special=(15, 9), foreign=(), prls=("none",), maxtog=2, maxtick=0, maxenv=0)                         # netfilter = lower half of the LAN
     # one client, deep: retransmissions with both xids, a capture toggle between any two messages (solo_a),
     # restart / reload (same session) / changed configuration between any two messages (solo_b, solo)
@@ -702,7 +757,7 @@ def plan(ctx, check):
         p.append(dict(kind="mc", label="mc-wide-secondary-d4", shape=0, mode="secondary", depth=4, kw=wide, every=24, fail_every=12))
         p.append(dict(kind="mc", label="mc-wide-primary-d4", shape=0, mode="primary", depth=4, kw=wide, every=24, fail_every=12))
         p.append(dict(kind="mc", label="mc-core-nice-d5", shape=0, mode="nice", depth=5, kw=core, every=24, fail_every=12))
-        p.append(dict(kind="mc", label="mc-xmac-secondary-d3", shape=0, mode="secondary", depth=3, kw=dict(xmac, special=(3, 7), maxtog=1), every=2, fail_every=1))
+        p.append(dict(kind="mc", label="mc-xmac-secondary-d3", shape=0, mode="secondary", depth=3, kw=dict(xmac, special=(3, 7), maxtog=1), every=2, fail_every=1))   # incl. one MAC under two client ids with a capture change in between
         p.append(dict(kind="mc", label="mc-lower-nice-d4", shape=2, mode="nice", depth=4, kw=low, every=12, fail_every=6))
         p.append(dict(kind="mc", label="mc-solo-a-nice-d6", shape=0, mode="nice", depth=6, kw=solo_a, every=12, fail_every=6))
         p.append(dict(kind="mc", label="mc-solo-b-primary-d5", shape=0, mode="primary", depth=5, kw=solo_b, every=12, fail_every=6))
